@@ -183,6 +183,17 @@ class Runner:
                         for a, b in itertools.combinations(srcs, 2)):
                     ops.append(('E', c))
             k = 0
+        if k == '3m':
+            # sub-bound: singles + every triple of transitions that involves at least two regions (two sources
+            # that are not on one ancestor chain): e.g. two transitions of one state + one of a sibling region
+            T = self.T
+            ops += [('E', (c,)) for c in cands]
+            for c in itertools.combinations(cands, 3):
+                srcs = [self.model.trans[i]['source'] for i in c]
+                if any(a != b and a not in T.anc(b) and b not in T.anc(a)
+                       for a, b in itertools.combinations(srcs, 2)):
+                    ops.append(('E', c))
+            k = 0
         for r in range(1, k + 1):
             ops += [('E', c) for c in itertools.combinations(cands, r)]
         if extra:
